@@ -98,6 +98,24 @@ Theorem c18_quiescent : forall o n c cs cs',
 Proof. exact quiescent. Qed.
 Print Assumptions c18_quiescent.
 
+(* ... and Shutdown does return: while it waits for the workers the executor is never stuck
+   (all workers have exited, or some worker can move), and every worker step strictly decreases a
+   measure (4 * queue length + per-worker weights), so only finitely many worker steps fit between
+   two submissions *)
+Theorem c18_shutdown_progress : forall o n c cs,
+  let s := run o (init n c) cs in
+  (sh s = ShWait ->
+   step o s Shut <> None \/
+   exists j, step o s (Take j) <> None \/ step o s (SeeDone j) <> None \/ step o s (Finish j) <> None \/
+             step o s (DrainTake j) <> None \/ step o s (DrainEmpty j) <> None) /\
+  (forall ch s', worker_choice ch = true -> step o s ch = Some s' -> measure s' < measure s).
+Proof.
+  intros o n c cs s. split.
+  - apply shutdown_not_stuck. apply (proj1 (reach_Inv o n c cs)).
+  - intros ch s'. apply worker_step_decreases.
+Qed.
+Print Assumptions c18_shutdown_progress.
+
 (* concurrent first Execute: however many callers meet the fresh executor, none of them panics
    or is refused before Shutdown has begun (the workers are spawned once: c18_workers_survive) *)
 Theorem c18_concurrent_start_safe : forall o n c cs t,
